@@ -489,3 +489,890 @@ def record_traces(ntraces, maxrecs, maxfields, seed):
             ev.append({"a": {"n0": "Close"}, "post": post})
         traces.append({"id": "r%d" % t, "enc": enc, "ev": ev})
     return traces
+
+
+# ------------------------------------------------------------------------------------------------------------
+# format layer: containers built from the manifest the specification printed
+# ------------------------------------------------------------------------------------------------------------
+NUC_LABELS = ["U235AA", "FE56AA"]
+NUC_IDS = ["U235", "FE56"]
+MCC3_IDS = ["U235_7", "PU2397"]
+SCAT_ATTR = {100: "elasticScatter", 200: "inelasticScatter", 300: "n2nScatter", 0: "totalScatter"}
+
+
+def _lit_ints(dom):
+    s = dom[1:]
+    return [int(x) for x in s.split(",")] if s else []
+
+
+def _lit_pairs(dom):
+    s = dom[1:]
+    return [tuple(int(y) for y in x.split(",")) for x in s.split(";")] if s else []
+
+
+def gen_value(e, pool, idx=0):
+    """A value for one manifest entry (inputs only; the manifest says what kind, shape and domain)."""
+    k, sh, w, dom = e["k"], e["sh"], e["w"], e["dom"]
+    n = 1
+    for x in sh:
+        n *= x
+    if dom == "fix":
+        return bool(e["v"]) if k == "bool" else int(e["v"])
+    if k in ("sparse", "sparse8"):
+        dense = np.zeros(tuple(sh))
+        for rc in _lit_pairs(dom):
+            dense[rc] = pool.f32() if k == "sparse" else pool.dbl()
+        return dense
+    if k == "string":
+        if dom.startswith("="):
+            return dom[1:]
+
+        def one(j):
+            if dom == "nucid":
+                return NUC_IDS[idx]
+            if dom == "mcc3id":
+                return MCC3_IDS[j]
+            if dom == "strfull":
+                return "".join(pool.r.choice("ABCDEFGHIJKLMNOPQRSTUVWXYZ") for _ in range(w))
+            return pool.string(w)
+
+        return one(0) if not sh else [one(j) for j in range(n)]
+    if k == "int":
+        if dom.startswith("="):
+            vals = _lit_ints(dom)
+        else:
+            vals = [pool.int(dom) for _ in range(n)]
+        return vals[0] if not sh else np.array(vals, dtype=np.int64).reshape(tuple(sh))
+    vals = [(pool.f32() if k == "float" else pool.dbl()) for _ in range(n)]
+    return vals[0] if not sh else np.array(vals, dtype=np.float64).reshape(tuple(sh))
+
+
+def same_entry(e, enc, wrote, got):
+    """None if the datum read back equals the datum written, else a short description."""
+    k = e["k"]
+    if got is None:
+        return "read back None, written %s" % _brief(wrote)
+    try:
+        if k in ("sparse", "sparse8"):
+            g = got.toarray() if hasattr(got, "toarray") else np.asarray(got)
+            return None if g.shape == wrote.shape and np.array_equal(g, wrote) else "matrix differs: written %s read %s" % (_brief(wrote), _brief(g))
+        if not e["sh"]:
+            if k == "string":
+                return None if str(got) == wrote else "written %r read %r" % (wrote, got)
+            if k == "bool":
+                return None if isinstance(got, (bool, np.bool_)) and bool(got) == wrote else "written %r read %r" % (wrote, got)
+            if k == "int":
+                return None if int(got) == wrote and float(got) == int(got) else "written %r read %r" % (wrote, got)
+            return None if same_value(k, True, enc, wrote, got) else "written %r read %r" % (wrote, got)
+        if k == "string":
+            g = [str(x) for x in list(got)]
+            return None if g == list(wrote) else "written %r read %r" % (wrote, g)
+        g = np.asarray(got)
+        wv = np.asarray(wrote)
+        if g.size != wv.size:
+            return "written %d values, read back %d" % (wv.size, g.size)
+        if wv.size and g.shape != wv.shape:
+            return "written shape %s, read back shape %s" % (wv.shape, g.shape)
+        if not np.array_equal(g.astype(np.float64), wv.astype(np.float64)):
+            return "written %s read %s" % (_brief(wv), _brief(g))
+        return None
+    except Exception as ex:  # noqa: BLE001
+        return "not comparable: %s (%r)" % (ex, type(got))
+
+
+def _brief(x):
+    s = repr(x.tolist() if hasattr(x, "tolist") else x)
+    return s if len(s) < 160 else s[:160] + "..."
+
+
+class Adapter:
+    """Per-format glue: create the container, resolve the manifest's paths, call the real reader / writer."""
+
+    def __init__(self, case):
+        self.case = case
+        self.fmt = case["fmt"]
+        self.h = case["h"]
+
+    # ---- generic build / compare
+    def build(self, seed):
+        pool = Pool(seed)
+        c = self.new()
+        vals = {}
+        for e in self.case["manifest"]:
+            idx = int(e["p"].split(":")[1]) - 1 if e["p"].startswith(("nuc:", "reg:")) else 0
+            v = gen_value(e, pool, idx)
+            vals[e["p"]] = v
+            self.set(c, e["p"], _copy(v), e)
+        self.finish(c)
+        return c, vals
+
+    def compare(self, c2, vals, enc):
+        """-> [(path, description)] for every datum that did not come back as written."""
+        out = []
+        for e in self.case["manifest"]:
+            try:
+                got = self.get(c2, e["p"], e)
+            except Exception as ex:  # noqa: BLE001
+                d = "not retrievable: %s: %s" % (type(ex).__name__, ex)
+            else:
+                d = same_entry(e, enc, vals[e["p"]], got)
+            if d:
+                out.append((e["p"], d))
+        return out
+
+    def finish(self, c):
+        pass
+
+    # ---- defaults for StreamWithDataContainer formats
+    stream = None
+
+    def new(self):
+        return self.stream()._getDataContainer()
+
+    def md(self, c):
+        return c.metadata
+
+    def set(self, c, p, v, e):
+        root, _, key = p.partition(":")
+        if root == "md":
+            self.md(c)[key] = v
+        elif root == "d":
+            setattr(c, key, v)
+        else:
+            raise KeyError(p)
+
+    def get(self, c, p, e):
+        root, _, key = p.partition(":")
+        if root == "md":
+            return self.md(c)[key]
+        if root == "d":
+            return getattr(c, key)
+        raise KeyError(p)
+
+    def write(self, c, fn, enc):
+        s = self.stream()
+        (s.writeBinary if enc == "bin" else s.writeAscii)(c, fn)
+
+    def read(self, fn, enc):
+        s = self.stream()
+        return (s.readBinary if enc == "bin" else s.readAscii)(fn)
+
+
+def _copy(v):
+    return v.copy() if isinstance(v, np.ndarray) else (list(v) if isinstance(v, list) else v)
+
+
+class GeodstA(Adapter):
+    def stream(self):
+        from armi.nuclearDataIO.cccc import geodst
+
+        return geodst.GeodstStream
+
+
+class LabelsA(Adapter):
+    def stream(self):
+        from armi.nuclearDataIO.cccc import labels
+
+        return labels.LabelsStream
+
+
+class PwdintA(Adapter):
+    def stream(self):
+        from armi.nuclearDataIO.cccc import pwdint
+
+        return pwdint.PwdintStream
+
+
+class RzfluxA(Adapter):
+    def stream(self):
+        from armi.nuclearDataIO.cccc import rzflux
+
+        return rzflux.RzfluxStream
+
+
+class RtfluxA(Adapter):
+    def stream(self):
+        from armi.nuclearDataIO.cccc import rtflux
+
+        return rtflux.AtfluxStream if self.h["adjoint"] else rtflux.RtfluxStream
+
+
+class NhfluxA(Adapter):
+    def stream(self):
+        from armi.nuclearDataIO.cccc import nhflux
+
+        return nhflux.getNhfluxReader(self.h["adjoint"], self.h["variant"])
+
+
+class Dif3dA(Adapter):
+    def stream(self):
+        from armi.nuclearDataIO.cccc import dif3d
+
+        return dif3d.Dif3dStream
+
+    def set(self, c, p, v, e):
+        root, _, key = p.partition(":")
+        if root in ("twoD", "threeD", "fourD", "fiveD"):
+            if getattr(c, root) is None:
+                setattr(c, root, {})
+            getattr(c, root)[key] = v
+        else:
+            Adapter.set(self, c, p, v, e)
+
+    def get(self, c, p, e):
+        root, _, key = p.partition(":")
+        if root in ("twoD", "threeD", "fourD", "fiveD"):
+            return getattr(c, root)[key]
+        return Adapter.get(self, c, p, e)
+
+
+class FixsrcA(Adapter):
+    def new(self):
+        return {}
+
+    def set(self, c, p, v, e):
+        c["arr"] = v
+
+    def get(self, c, p, e):
+        return c["arr"]
+
+    def write(self, c, fn, enc):
+        from armi.nuclearDataIO.cccc import fixsrc
+
+        fixsrc.writeBinary(fn, c["arr"])
+
+    def read(self, fn, enc):
+        from armi.nuclearDataIO.cccc import fixsrc
+
+        return {"arr": fixsrc.readBinary(fn)}
+
+
+class _XsLibA(Adapter):
+    """ISOTXS / GAMISO / PMATRX: an IsotxsLibrary of XSNuclides."""
+
+    mdname = "isotxsMetadata"
+    xsname = "micros"
+
+    def new(self):
+        from armi.nuclearDataIO import xsLibraries, xsNuclides
+
+        lib = xsLibraries.IsotxsLibrary()
+        for i in range(self.h["nNuc"]):
+            lib[NUC_LABELS[i]] = xsNuclides.XSNuclide(lib, NUC_LABELS[i])
+        return lib
+
+    def md(self, c):
+        return getattr(c, self.mdname)
+
+    def _nuc(self, c, i):
+        return c[c.nuclideLabels[i - 1]]
+
+    def set(self, c, p, v, e):
+        parts = p.split(":")
+        if parts[0] == "md":
+            self.md(c)[parts[1]] = v
+        elif parts[0] == "lib":
+            setattr(c, parts[1], v)
+        elif parts[0] == "nuc":
+            self.set_nuc(self._nuc(c, int(parts[1])), parts[2], parts[3], v, e)
+        else:
+            raise KeyError(p)
+
+    def get(self, c, p, e):
+        parts = p.split(":")
+        if parts[0] == "md":
+            return self.md(c)[parts[1]]
+        if parts[0] == "lib":
+            return getattr(c, parts[1])
+        if parts[0] == "nuc":
+            return self.get_nuc(self._nuc(c, int(parts[1])), parts[2], parts[3], e)
+        raise KeyError(p)
+
+
+class IsotxsA(_XsLibA):
+    def iomod(self):
+        from armi.nuclearDataIO.cccc import isotxs
+
+        return isotxs
+
+    def set_nuc(self, nuc, kind, key, v, e):
+        from scipy import sparse
+
+        md = getattr(nuc, self.mdname)
+        xs = getattr(nuc, self.xsname)
+        if kind == "md":
+            if key in ("jband", "jj"):
+                nsb, ng = e["sh"]
+                flat = [int(x) for x in np.asarray(v).ravel()]
+                md[key] = {(g, n): flat[n * ng + g] for n in range(nsb) for g in range(ng)}
+            else:
+                md[key] = v
+        elif kind == "x":
+            setattr(xs, key, v)
+        elif kind == "scat":
+            flag = int(md["scatFlag"][int(key)])
+            setattr(xs, SCAT_ATTR[flag], sparse.csr_matrix(v))
+        else:
+            raise KeyError(kind)
+
+    def get_nuc(self, nuc, kind, key, e):
+        md = getattr(nuc, self.mdname)
+        xs = getattr(nuc, self.xsname)
+        if kind == "md":
+            if key in ("jband", "jj"):
+                nsb, ng = e["sh"]
+                return np.array([md[key][(g, n)] for n in range(nsb) for g in range(ng)]).reshape(nsb, ng)
+            return md[key]
+        if kind == "x":
+            return getattr(xs, key)
+        if kind == "scat":
+            flag = int(md["scatFlag"][int(key)])
+            return getattr(xs, SCAT_ATTR[flag])
+        raise KeyError(kind)
+
+    def write(self, c, fn, enc):
+        m = self.iomod()
+        (m.writeBinary if enc == "bin" else m.writeAscii)(c, fn)
+
+    def read(self, fn, enc):
+        m = self.iomod()
+        return (m.readBinary if enc == "bin" else m.readAscii)(fn)
+
+
+class GamisoA(IsotxsA):
+    mdname = "gamisoMetadata"
+    xsname = "gammaXS"
+
+    def iomod(self):
+        from armi.nuclearDataIO.cccc import gamiso
+
+        return gamiso
+
+
+class PmatrxA(_XsLibA):
+    mdname = "pmatrxMetadata"
+
+    def set_nuc(self, nuc, kind, key, v, e):
+        if kind == "md":
+            if key == "activationXS":
+                v = [np.array(row) for row in v]
+            elif key in ("activationMT", "activationMTU"):
+                v = [int(x) for x in v]
+            nuc.pmatrxMetadata[key] = v
+        elif kind == "a":
+            setattr(nuc, key, v)
+        elif kind == "prod":
+            L = int(key)
+            if L == 1:
+                nuc.isotropicProduction = v
+            elif L == 2:
+                nuc.linearAnisotropicProduction = v
+            else:
+                nuc.nOrderProductionMatrix[L] = v
+        else:
+            raise KeyError(kind)
+
+    def get_nuc(self, nuc, kind, key, e):
+        if kind == "md":
+            v = nuc.pmatrxMetadata[key]
+            if key == "activationXS" and v is not None:
+                return np.array([np.asarray(r) for r in v])
+            return v
+        if kind == "a":
+            return getattr(nuc, key)
+        L = int(key)
+        if L == 1:
+            return nuc.isotropicProduction
+        if L == 2:
+            return nuc.linearAnisotropicProduction
+        return nuc.nOrderProductionMatrix.get(L)
+
+    def write(self, c, fn, enc):
+        from armi.nuclearDataIO.cccc import pmatrx
+
+        (pmatrx.writeBinary if enc == "bin" else pmatrx.writeAscii)(c, fn)
+
+    def read(self, fn, enc):
+        from armi.nuclearDataIO.cccc import pmatrx
+
+        return (pmatrx.readBinary if enc == "bin" else pmatrx.readAscii)(fn)
+
+
+class DlayxsA(Adapter):
+    def new(self):
+        from armi.nucDirectory import nuclideBases
+        from armi.nuclearDataIO.cccc import dlayxs
+
+        d = dlayxs.Dlayxs()
+        for i in range(self.h["nNuc"]):
+            d[nuclideBases.byMcc3Id[MCC3_IDS[i]]] = dlayxs.DelayedNeutronData(self.h["G"], d.numPrecursorGroups)
+        return d
+
+    def _nuc(self, c, i):
+        return list(c.keys())[i - 1]
+
+    def set(self, c, p, v, e):
+        parts = p.split(":")
+        if parts[0] == "md":
+            c.metadata[parts[1]] = np.array(v) if parts[1] in ("nuclideIDs", "dummy2") else v
+        elif parts[0] == "lib":
+            setattr(c, parts[1], v)
+        elif parts[2] == "dnpf":
+            c[self._nuc(c, int(parts[1]))].delayNeutronsPerFission[: v.shape[0], :] = v
+        else:
+            c.nuclideFamily[self._nuc(c, int(parts[1]))] = v
+
+    def get(self, c, p, e):
+        parts = p.split(":")
+        if parts[0] == "md":
+            return c.metadata[parts[1]]
+        if parts[0] == "lib":
+            return getattr(c, parts[1])
+        if parts[2] == "dnpf":
+            full = c[self._nuc(c, int(parts[1]))].delayNeutronsPerFission
+            rest = full[e["sh"][0]:, :]
+            if np.any(rest):
+                return None
+            return full[: e["sh"][0], :]
+        return c.nuclideFamily[self._nuc(c, int(parts[1]))]
+
+    def write(self, c, fn, enc):
+        from armi.nuclearDataIO.cccc import dlayxs
+
+        (dlayxs.writeBinary if enc == "bin" else dlayxs.writeAscii)(c, fn)
+
+    def read(self, fn, enc):
+        from armi.nuclearDataIO.cccc import dlayxs
+
+        return (dlayxs.readBinary if enc == "bin" else dlayxs.readAscii)(fn)
+
+
+class CompxsA(Adapter):
+    def new(self):
+        from armi.nuclearDataIO import xsLibraries
+
+        return xsLibraries.CompxsLibrary()
+
+    def build(self, seed):
+        # regions can only be created once the file-level metadata exists (CompxsRegion reads it in __init__)
+        from armi.nuclearDataIO.cccc import compxs
+
+        pool = Pool(seed)
+        c = self.new()
+        vals = {}
+        man = self.case["manifest"]
+        for e in [e for e in man if not e["p"].startswith("reg:")]:
+            v = gen_value(e, pool)
+            vals[e["p"]] = v
+            self.set(c, e["p"], _copy(v), e)
+        for i in range(self.h["nComp"]):
+            reg = compxs.CompxsRegion(c, i)
+            reg.macros.higherOrderScatter = {}
+        for e in [e for e in man if e["p"].startswith("reg:")]:
+            v = gen_value(e, pool)
+            vals[e["p"]] = v
+            self.set(c, e["p"], _copy(v), e)
+        return c, vals
+
+    def set(self, c, p, v, e):
+        from scipy import sparse
+
+        parts = p.split(":")
+        if parts[0] == "md":
+            c.compxsMetadata[parts[1]] = v
+        elif parts[0] == "lib":
+            setattr(c, parts[1], v)
+        else:
+            reg = c.regions[int(parts[1]) - 1]
+            kind, key = parts[2], parts[3]
+            if kind == "md":
+                if key == "numPrecursorsProduced":
+                    for g in range(v.shape[0]):
+                        reg.metadata[key, g] = v[g]
+                elif key in ("chiFlag",):
+                    reg.metadata[key] = v
+                elif e["k"] == "double":
+                    reg.metadata[key] = [float(x) for x in v]
+                else:
+                    reg.metadata[key] = v
+            elif kind == "x":
+                reg.macros[key] = v
+            else:
+                L = int(key)
+                m = sparse.csc_matrix(v)
+                if L == 0:
+                    reg.macros.totalScatter = m
+                else:
+                    reg.macros.higherOrderScatter[L] = m
+
+    def get(self, c, p, e):
+        parts = p.split(":")
+        if parts[0] == "md":
+            return c.compxsMetadata[parts[1]]
+        if parts[0] == "lib":
+            return getattr(c, parts[1])
+        reg = c.regions[int(parts[1]) - 1]
+        kind, key = parts[2], parts[3]
+        if kind == "md":
+            if key == "numPrecursorsProduced":
+                return np.array([reg.metadata[key, g] for g in range(e["sh"][0])])
+            return reg.metadata[key]
+        if kind == "x":
+            return reg.macros[key]
+        L = int(key)
+        return reg.macros.totalScatter if L == 0 else reg.macros.higherOrderScatter.get(L)
+
+    def write(self, c, fn, enc):
+        from armi.nuclearDataIO.cccc import compxs
+
+        (compxs.writeBinary if enc == "bin" else compxs.writeAscii)(c, fn)
+
+    def read(self, fn, enc):
+        from armi.nuclearDataIO.cccc import compxs
+
+        return (compxs.readBinary if enc == "bin" else compxs.readAscii)(fn)
+
+
+ADAPTERS = {"GEODST": GeodstA, "DIF3D": Dif3dA, "NHFLUX": NhfluxA, "LABELS": LabelsA, "PWDINT": PwdintA, "RTFLUX": RtfluxA,
+            "RZFLUX": RzfluxA, "FIXSRC": FixsrcA, "ISOTXS": IsotxsA, "GAMISO": GamisoA, "PMATRX": PmatrxA, "DLAYXS": DlayxsA,
+            "COMPXS": CompxsA}
+
+
+# ------------------------------------------------------------------------------------------------------------
+# format layer: one case = one header; write / measure / read / compare / re-write, in each encoding
+# ------------------------------------------------------------------------------------------------------------
+def _site(ex, fmt):
+    """(function, exception type) of the failing call site.  isotxs / compxs / pmatrx re-raise as OSError and
+    IORecord.__exit__ as BufferError from an except block, so the chain of causes is walked: the function is the
+    innermost frame inside the format's own module on the innermost traceback that has such a frame, the type is
+    the root exception's."""
+    import traceback
+
+    chain = [ex]
+    while (chain[-1].__cause__ or chain[-1].__context__) is not None and len(chain) < 10:
+        chain.append(chain[-1].__cause__ or chain[-1].__context__)
+    name = None
+    anyframe = None
+    for e in chain:
+        frames = [fr for fr in traceback.extract_tb(e.__traceback__) if "/nuclearDataIO/" in fr.filename]
+        own = [fr.name for fr in frames if not fr.filename.endswith("/cccc/cccc.py")]
+        if own:
+            name = own[-1]
+        if frames:
+            anyframe = frames[-1].name
+    return (name or anyframe or "?"), type(chain[-1]).__name__
+
+
+def _measure(fn, enc):
+    if enc == "bin":
+        with open(fn, "rb") as f:
+            buf = f.read()
+        fr, prob = bin_frames(buf)
+        return buf, fr, prob
+    with open(fn, "r", newline="") as f:
+        text = f.read()
+    fr, prob = asc_frames(text)
+    return text, fr, prob
+
+
+def _frames_diff(case, enc, frames, prob):
+    """First difference between the measured frame sequence and the specification's record sequence."""
+    recs = case["recs"]
+    for i, r in enumerate(recs):
+        if i >= len(frames):
+            return recs[_backtrack(recs, i, enc)]["tag"], "record %d (%s) of %d is missing: the file has %d records%s" % (
+                i + 1, r["tag"], len(recs), len(frames), "; " + prob if prob else "")
+        head, plen, tail = frames[i]
+        want_len = r["bytes"] if enc == "bin" else r["chars"]
+        if head != r["bytes"] or tail != r["bytes"] or plen != want_len:
+            tag = recs[_backtrack(recs, i, enc)]["tag"] if len(frames) != len(recs) else r["tag"]
+            return tag, "record %d (%s): expected head=tail=%d payload=%d, file has head=%d tail=%d payload=%d (%d records, grammar %d)" % (
+                i + 1, r["tag"], r["bytes"], want_len, head, tail, plen, len(frames), len(recs))
+    if len(frames) > len(recs):
+        return "extra", "file has %d records, the grammar %d" % (len(frames), len(recs))
+    if prob:
+        return "stream", prob
+    return None
+
+
+def _calls_diff(case, logrecs):
+    recs = case["recs"]
+    for i, r in enumerate(recs):
+        if i >= len(logrecs):
+            return r["tag"], "record %d (%s): no rw* calls recorded (only %d records)" % (i + 1, r["tag"], len(logrecs))
+        if logrecs[i] != r["calls"]:
+            return r["tag"], "record %d (%s): expected calls %s, observed %s" % (i + 1, r["tag"], json_short(r["calls"]), json_short(logrecs[i]))
+    if len(logrecs) > len(recs):
+        return "extra", "%d records opened, the grammar has %d" % (len(logrecs), len(recs))
+    return None
+
+
+def json_short(x):
+    import json
+
+    s = json.dumps(x, separators=(",", ":"))
+    return s if len(s) < 240 else s[:240] + "..."
+
+
+class Scratch:
+    """Two scratch files for the writers.  Anonymous in-memory files (memfd) when the platform has them -- the real
+    writers open a *path*, /proc/self/fd/N re-opens the memfd with truncation -- else files in the work directory."""
+
+    def __init__(self, wd):
+        import os
+
+        self.fds = []
+        self.paths = []
+        for i in range(2):
+            try:
+                fd = os.memfd_create("c09-%d" % i)
+                self.fds.append(fd)
+                path = "/proc/self/fd/%d" % fd
+                with open(path, "wb") as f:
+                    f.write(b"x")
+            except (AttributeError, OSError):
+                path = os.path.join(wd, "scratch%d.cccc" % i)
+            self.paths.append(path)
+
+    def close(self):
+        import os
+
+        for fd in self.fds:
+            try:
+                os.close(fd)
+            except OSError:
+                pass
+
+
+def _backtrack(recs, i, enc):
+    """Records of equal size are indistinguishable on the wire: name the first of the equal-sized run."""
+    key = "bytes" if enc == "bin" else "chars"
+    while i > 0 and recs[i - 1][key] == recs[i][key] and recs[i - 1]["bytes"] == recs[i]["bytes"]:
+        i -= 1
+    return i
+
+
+def run_format_case(case, seed, scratch, calls=True):
+    """-> list of (key, text, extra): the first divergence per encoding.  Keys name format, failing stage and
+    call site / record tag / datum."""
+    fmt = case["fmt"]
+    ad = ADAPTERS[fmt](case)
+    out = []
+    seen_bin = set()
+    for enc in case["encs"]:
+        f1, f2 = scratch.paths
+        found = []
+
+        def add(stage, what, text):
+            found.append(("%s:%s:%s" % (fmt, stage, what), "%s %s: %s" % (fmt, "binary" if enc == "bin" else "ASCII", text)))
+
+        try:
+            c, vals = ad.build(seed)
+        except Exception as ex:  # noqa: BLE001
+            raise RuntimeError("generator could not build a %s container for %r: %s: %s" % (fmt, case["h"], type(ex).__name__, ex)) from ex
+        stop = False
+        try:
+            ad.write(c, f1, enc)
+        except Exception as ex:  # noqa: BLE001
+            site, et = _site(ex, fmt)
+            add("write-raises", site, "writer raised %s in %s" % (et, site))
+            stop = True
+        if not stop:
+            buf, frames, prob = _measure(f1, enc)
+            d = _frames_diff(case, enc, frames, prob)
+            if d:
+                wc = ascii_width_class(buf) if enc == "asc" else None
+                if wc:
+                    found.append(("ascii:width:" + wc, "%s ASCII: %s" % (fmt, d[1])))
+                else:
+                    add("frames", d[0], d[1])
+            stop = bool(found)
+        if not stop:
+            try:
+                c2 = ad.read(f1, enc)
+            except Exception as ex:  # noqa: BLE001
+                site, et = _site(ex, fmt)
+                add("read-raises", site, "reader raised %s in %s on the file the writer produced" % (et, site))
+                stop = True
+        if not stop:
+            lost = set()
+            for path, d in ad.compare(c2, vals, enc):
+                what = re.sub(r":\d+:", ":", path)
+                if what not in lost:
+                    lost.add(what)
+                    add("readback", what, "%s: %s" % (path, d))
+            # a datum that does not come back is reported; the remaining stages still run on what was read
+            try:
+                ad.write(c2, f2, enc)
+                buf2 = _measure(f2, enc)[0]
+                if buf2 != buf:
+                    pos = next((i for i, (a, b) in enumerate(zip(buf, buf2)) if a != b), min(len(buf), len(buf2)))
+                    add("rewrite-differs", "bytes", "writing what was read differs from the file at offset %d (lengths %d / %d)" % (pos, len(buf), len(buf2)))
+            except Exception as ex:  # noqa: BLE001
+                site, et = _site(ex, fmt)
+                add("rewrite-raises", site, "writing what was read raised %s in %s" % (et, site))
+            stop = any(":rewrite-" in k for k, _ in found)
+        if not stop:
+            if calls:
+                # the same write and read again with call-logging records: field kinds and counts per record
+                c3, _ = ad.build(seed)
+                try:
+                    with logged_streams() as log:
+                        ad.write(c3, f2, enc)
+                    d = _calls_diff(case, log.records)
+                    if d:
+                        add("calls-write", d[0], d[1])
+                    if _measure(f2, enc)[0] != buf:
+                        raise RuntimeError("instrumented writer produced different bytes")
+                    if not d:
+                        with logged_streams() as log:
+                            ad.read(f1, enc)
+                        d = _calls_diff(case, log.records)
+                        if d:
+                            add("calls-read", d[0], d[1])
+                except RuntimeError:
+                    raise
+                except Exception as ex:  # noqa: BLE001
+                    raise RuntimeError("instrumented run behaves differently from the plain one: %s: %s" % (type(ex).__name__, ex)) from ex
+        for key, text in found:
+            if enc == "bin":
+                seen_bin.add(key)
+            elif key not in seen_bin and not key.startswith("ascii:"):
+                key = key + ":ascii-only"
+            out.append((key, text, {"enc": enc}))
+    return out
+
+
+def isotxs_loca(case, seed, scratch):
+    """The LOCA words the real writer put into the 2D record of a binary ISOTXS file (None if it cannot be written)."""
+    ad = ADAPTERS[case["fmt"]](case)
+    c, _ = ad.build(seed)
+    try:
+        ad.write(c, scratch.paths[0], "bin")
+    except Exception:  # noqa: BLE001
+        return None
+    buf, frames, _ = _measure(scratch.paths[0], "bin")
+    if len(frames) < 3:
+        return None
+    off = sum(8 + f[1] for f in frames[:2]) + 4
+    n = case["h"]["nNuc"]
+    end = off + frames[2][1]
+    return list(struct.unpack_from("%di" % n, buf, end - 4 * n))
+
+
+# ------------------------------------------------------------------------------------------------------------
+# fixtures shipped with armi: read, re-write, byte-compare (directly and through the other encoding)
+# ------------------------------------------------------------------------------------------------------------
+def _io(fmt):
+    from armi.nuclearDataIO.cccc import compxs, dif3d, dlayxs, gamiso, geodst, isotxs, labels, nhflux, pmatrx, pwdint, rtflux, rzflux
+
+    mods = {"ISOTXS": isotxs, "GAMISO": gamiso, "PMATRX": pmatrx, "DLAYXS": dlayxs, "COMPXS": compxs}
+    streams = {"GEODST": geodst.GeodstStream, "DIF3D": dif3d.Dif3dStream, "NHFLUX": nhflux.NhfluxStream,
+               "NHFLUX-VARIANT": nhflux.NhfluxStreamVariant, "LABELS": labels.LabelsStream, "PWDINT": pwdint.PwdintStream,
+               "RTFLUX": rtflux.RtfluxStream, "RZFLUX": rzflux.RzfluxStream}
+    m = mods.get(fmt) or streams[fmt]
+
+    def rd(fn, enc):
+        return (m.readBinary if enc == "bin" else m.readAscii)(fn)
+
+    def wr(d, fn, enc):
+        return (m.writeBinary if enc == "bin" else m.writeAscii)(d, fn)
+
+    return rd, wr
+
+
+def fixtures(thorough):
+    import os
+
+    from harness import common
+
+    root = os.path.join(common.REPO, "armi")
+    c = os.path.join(root, "nuclearDataIO", "cccc", "tests", "fixtures")
+    x = os.path.join(root, "nuclearDataIO", "tests", "fixtures")
+    out = [
+        dict(name="simple_hexz.geodst", path=os.path.join(c, "simple_hexz.geodst"), fmt="GEODST", enc="bin"),
+        dict(name="simple_hexz.dif3d", path=os.path.join(c, "simple_hexz.dif3d"), fmt="DIF3D", enc="bin"),
+        dict(name="simple_hexz.nhflux", path=os.path.join(c, "simple_hexz.nhflux"), fmt="NHFLUX", enc="bin"),
+        dict(name="simple_hexz.nhflux.variant", path=os.path.join(c, "simple_hexz.nhflux.variant"), fmt="NHFLUX-VARIANT", enc="bin"),
+        dict(name="labels.binary", path=os.path.join(c, "labels.binary"), fmt="LABELS", enc="bin"),
+        dict(name="labels.ascii", path=os.path.join(c, "labels.ascii"), fmt="LABELS", enc="asc"),
+        dict(name="simple_cartesian.pwdint", path=os.path.join(c, "simple_cartesian.pwdint"), fmt="PWDINT", enc="bin"),
+        dict(name="simple_cartesian.rtflux", path=os.path.join(c, "simple_cartesian.rtflux"), fmt="RTFLUX", enc="bin"),
+        dict(name="simple_cartesian.rzflux", path=os.path.join(c, "simple_cartesian.rzflux"), fmt="RZFLUX", enc="bin"),
+        dict(name="mc2v3.dlayxs", path=os.path.join(c, "mc2v3.dlayxs"), fmt="DLAYXS", enc="bin"),
+        dict(name="COMPXS.ascii", path=os.path.join(root, "tests", "COMPXS.ascii"), fmt="COMPXS", enc="asc"),
+        dict(name="mc2v3-AA.isotxs", path=os.path.join(x, "mc2v3-AA.isotxs"), fmt="ISOTXS", enc="bin"),
+        dict(name="mc2v3-AA.gamiso", path=os.path.join(x, "mc2v3-AA.gamiso"), fmt="GAMISO", enc="bin"),
+        dict(name="mc2v3-AA.pmatrx", path=os.path.join(x, "mc2v3-AA.pmatrx"), fmt="PMATRX", enc="bin"),
+        dict(name="tests/ISOAA", path=os.path.join(root, "tests", "ISOAA"), fmt="ISOTXS", enc="bin", mask=(4, 28)),
+    ]
+    if thorough:
+        for f in sorted(os.listdir(x)):
+            if f.startswith("mc2v3-AA"):
+                continue
+            fmt = "ISOTXS" if (f.endswith(".isotxs") or f.startswith("ISO")) else "GAMISO" if f.endswith(".gamiso") else "PMATRX" if f.endswith(".pmatrx") else None
+            if fmt:
+                out.append(dict(name=f, path=os.path.join(x, f), fmt=fmt, enc="bin"))
+    return [f for f in out if os.path.exists(f["path"])]
+
+
+def _content(fn, enc, mask=None):
+    if enc == "bin":
+        with open(fn, "rb") as f:
+            b = f.read()
+        if mask:
+            b = b[: mask[0]] + b"\0" * (mask[1] - mask[0]) + b[mask[1]:]
+        return b
+    with open(fn, "r") as f:  # text mode, universal newlines
+        return f.read()
+
+
+def run_fixture(fx, scratch):
+    """-> [(key, text)]"""
+    rd, wr = _io(fx["fmt"])
+    fmt = fx["fmt"].split("-")[0]
+    enc, other = fx["enc"], ("asc" if fx["enc"] == "bin" else "bin")
+    ref = _content(fx["path"], enc, fx.get("mask"))
+    f1, f2 = scratch.paths
+    out = []
+
+    def raised(stage, ex, e):
+        site, et = _site(ex, fmt)
+        key = "%s:%s-raises:%s%s" % (fmt, stage, site, ":ascii-only" if e == "asc" else "")
+        out.append((key, "fixture %s: %s (%s) raised %s in %s" % (fx["name"], stage, "ASCII" if e == "asc" else "binary", et, site)))
+
+    try:
+        d = rd(fx["path"], enc)
+    except Exception as ex:  # noqa: BLE001
+        raised("read", ex, enc)
+        return out
+    try:
+        wr(d, f1, enc)
+    except Exception as ex:  # noqa: BLE001
+        raised("write", ex, enc)
+        return out
+    if _content(f1, enc, fx.get("mask")) != ref:
+        out.append(("fixture:%s:rewrite-differs" % fx["name"], "fixture %s: writing what was read does not reproduce the file" % fx["name"]))
+    # through the other encoding and back
+    try:
+        wr(d, f2, other)
+    except Exception as ex:  # noqa: BLE001
+        raised("write", ex, other)
+        return out
+    try:
+        d2 = rd(f2, other)
+    except Exception as ex:  # noqa: BLE001
+        wc = ascii_width_class(_content(f2, "asc")) if other == "asc" else None
+        if wc:
+            out.append(("ascii:width:" + wc, "fixture %s: its ASCII form cannot be read back: a value is wider than its fixed field (%s)" % (fx["name"], wc)))
+        else:
+            raised("read", ex, other)
+        return out
+    try:
+        wr(d2, f1, enc)
+    except Exception as ex:  # noqa: BLE001
+        raised("rewrite", ex, enc)
+        return out
+    if _content(f1, enc, fx.get("mask")) != ref:
+        out.append(("fixture:%s:via-%s-differs" % (fx["name"], other), "fixture %s: %s -> %s -> %s does not reproduce the file" % (fx["name"], enc, other, enc)))
+    return out
